@@ -146,6 +146,18 @@ impl TransportState {
         }
     }
 
+    /// Verification hook: set the forthcoming *outbound* nonce value (mirror of
+    /// `set_receiving_nonce`). Only compiled with the `verif-hooks` feature.
+    #[cfg(feature = "verif-hooks")]
+    #[doc(hidden)]
+    pub fn verif_set_sending_nonce(&mut self, nonce: u64) {
+        if self.initiator {
+            self.cipherstates.0.set_nonce(nonce);
+        } else {
+            self.cipherstates.1.set_nonce(nonce);
+        }
+    }
+
     /// Get the forthcoming inbound nonce value.
     ///
     /// # Errors
